@@ -2,6 +2,7 @@ import CppUModel.Base.Proto
 import CppUModel.Model.MockValue
 import CppUModel.Model.MockNamedValueList
 import CppUModel.Model.MockEntry
+import CppUModel.Model.MockReturn
 import CppUModel.Gen.MockEquals
 /-!
 Driver for C09.
@@ -131,6 +132,15 @@ def apiTok (tok : String) : Option (String × String × Int) :=
     | _, _ => none
   | _ => none
 
+def retWords : List String := ["Int", "UnsignedInt", "LongInt", "UnsignedLongInt", "LongLongInt", "UnsignedLongLongInt"]
+def lowerFirst (w : String) : String := match w.toList with
+  | c :: cs => String.ofList (c.toLower :: cs)
+  | [] => w
+/-- the 24 readers in the order the harness calls them -/
+def retReaderNames : List (String × String) :=
+  (retWords.flatMap fun w => [("call", s!"return{w}Value"), ("call", s!"return{w}ValueOrDefault")]) ++
+  (retWords.flatMap fun w => [("support", s!"{lowerFirst w}ReturnValue"), ("support", s!"return{w}ValueOrDefault")])
+
 def setRepo (st : DState) (i : Nat) (r : Repo) : DState := { st with repos := st.repos.set i r }
 
 def modelStep (st : DState) (op : List String) (obs : List (List String)) : DState × List String :=
@@ -147,6 +157,22 @@ def modelStep (st : DState) (op : List String) (obs : List (List String)) : DSta
       match entryValue "expected" ea ek ev, entryValue "actual" aa ak av with
       | some e, some a => (st, [s!"p {b01 (Gen.MockEquals.equalsGen e a)}"])
       | _, _ => (st, ["bad-op"])
+    | _, _ => (st, ["bad-op"])
+  | ["getret", tv, td] =>
+    -- the stored return value is what `andReturnValue(<typed value>)` creates; every reader is followed through the
+    -- regenerated reader → getter table (Model/MockReturn.lean)
+    let stored : Option (Option MVal) :=
+      if tv == "none" then some none else
+      match tv.splitOn ":" with
+      | [k, n] => (n.toInt?.bind fun v => mkInt k v).map some
+      | _ => none
+    match stored, td.toInt? with
+    | some stored, some d =>
+      (st, retReaderNames.map fun (level, reader) =>
+        match readerResult level reader stored d with
+        | some (.ok n) => s!"{level}.{reader} ok {n}"
+        | some (.error _) => s!"{level}.{reader} fail"
+        | none => s!"{level}.{reader} unmodelled")
     | _, _ => (st, ["bad-op"])
   | ["compat", ta, tb] =>
     match mvalOf st ta, mvalOf st tb with
@@ -366,6 +392,26 @@ def specOp (o : Proto.Op) : Except String Unit := do
       let want := b01 (e == a)
       if r != want then throw s!"scenario {if r == "1" then "passed" else "failed"}, must {if e == a then "pass" else "fail"}: expected parameter {e}, actual parameter {a}"
     | _ => throw "no scenario result"
+  | ["getret", tv, td] =>
+    -- every reader returns exactly the stored integer or fails the test; an …OrDefault reader returns the default when
+    -- (and only when) no return value was set
+    let some d := td.toInt? | throw "bad default"
+    let stored : Option Int ← (if tv == "none" then pure none else do
+      let a ← svalOf tv
+      match a with
+      | .int _ v => pure (some v)
+      | _ => throw s!"{tv}: not an integer")
+    for l in o.obs do
+      match l with
+      | [r, "fail"] =>
+        if stored.isNone && (r.splitOn "OrDefault").length > 1 then throw s!"{r}({d}) failed the test although no return value was set"
+      | [r, "ok", n] =>
+        let some x := n.toInt? | throw s!"{r}: malformed result {n}"
+        match stored with
+        | some v => if x != v then throw s!"{r} returned {x} for the stored return value {v}"
+        | none => if (r.splitOn "OrDefault").length > 1 && x != d then throw s!"{r}({d}) returned {x} with no return value set"
+      | _ => throw s!"unexpected observation {" ".intercalate l}"
+    if o.obs.length != 24 then throw s!"{o.obs.length} reader observations instead of 24"
   | ["get", ta] =>
     let a ← svalOf ta
     match a with
